@@ -508,3 +508,134 @@ def _upolicy(L, seq):
         star = ex.contains(fwd, SStr.lit("*"), L.st)
         priv = lambda k: And(_trust(L), Or(star, ex.contains(fwd, seq.elem(k).items[0], L.st)))
     return z3.ForAll([k], Implies(And(0 <= k, k < seq.hi, _has_underscore(seq, k)), Or(dangerous, priv(k))))
+
+
+# ======================================================================================================
+# set_body_reader
+# ======================================================================================================
+inline("gunicorn.http.body:Body.__init__", "gunicorn.http.body:LengthReader.__init__",
+       "gunicorn.http.body:ChunkedReader.__init__", "gunicorn.http.body:EOFReader.__init__",
+       "gunicorn.http.message:Message.force_close")
+from pyvc.strops import decval
+from pyvc.values import str_eq
+
+
+def name_is(seq, k, lit):
+    return str_eq(seq.elem(k).items[0], SStr.lit(lit))
+
+
+def mk_headers(st, name="hdrs"):
+    seq = ListShape(HDR_SHAPE).fresh_seq(st, name, view=False)
+    return st.alloc(HList(sym=seq)), seq
+
+
+def reader_of(c, st, slf):
+    body = st.obj(slf).fields.get("body")
+    if not isinstance(body, Ref):
+        return None, None
+    rd = st.obj(body).fields.get("reader")
+    if not isinstance(rd, Ref):
+        return None, None
+    return rd, st.obj(rd)
+
+
+@contract("gunicorn.http.message:Message.set_body_reader", props=("C01",))
+class SetBodyReader(Contract):
+    def cases(self, env):
+        for cn in ("ChunkedReader", "LengthReader", "EOFReader", "Body"):
+            env.use_class("gunicorn.http.body", cn)
+        st = base_state(env)
+        u = mk_unreader(env, st)
+        hdrs, seq = mk_headers(st)
+        v0, v1 = z3.Int("ver.major"), z3.Int("ver.minor")
+        st.assume(0 <= v0, v0 <= 9, 0 <= v1, v1 <= 9)
+        slf = mk_request_shell(env, st, u, headers=hdrs, version=STuple([SInt(v0), SInt(v1)]), body=NONE,
+                               must_close=SBool(False))
+        return [("any-headers", st, {"self": slf}, {})]
+
+    def pre(self, c):
+        return []
+
+    def modifies(self, c):
+        return [("field", c.a["self"], "body", _any_body), ("field", c.a["self"], "must_close")]
+
+    def raises(self, c):
+        E = errs(c)
+        return [(E.InvalidHeader, None), (E.UnsupportedTransferCoding, None)]
+
+    def post(self, c):
+        slf = c.a["self"]
+        rd, ro = reader_of(c, c.st, slf)
+        if rd is None:
+            return [("body-reader-installed", FALSE)]
+        seq = c.old.obj(c.old.obj(slf).fields["headers"]).sym
+        ver = c.old.obj(slf).fields["version"]
+        i, j = qvar("i"), qvar("j")
+        inr = lambda k: And(seq.lo <= k, k < seq.hi)
+        is_cl = lambda k: name_is(seq, k, "CONTENT-LENGTH")
+        is_te = lambda k: name_is(seq, k, "TRANSFER-ENCODING")
+        no_cl = z3.ForAll([i], Implies(inr(i), Not(is_cl(i))))
+        no_te = z3.ForAll([i], Implies(inr(i), Not(is_te(i))))
+        out = [("unreader-untouched", And(u_pos(c, c.st.obj(slf).fields["unreader"]) == u_pos(c, c.old.obj(slf).fields["unreader"], c.old)))]
+        if ro.cls == "ChunkedReader":
+            out += [("chunked=>HTTP/1.1+", c.ex.compare(__import__("ast").GtE(), ver, STuple([SInt(1), SInt(1)]), c.st)),
+                    ("chunked=>no-Content-Length", no_cl),
+                    ("chunked=>Transfer-Encoding-present", Not(no_te))]
+        elif ro.cls == "LengthReader":
+            n = ro.fields["length"].t
+            vw = lambda k: seq.elem(k).items[1].single_win()
+            out += [("length>=0", n >= 0),
+                    ("length=>exactly-one-Content-Length-with-that-value",
+                     z3.Exists([i], And(inr(i), is_cl(i),
+                                        z3.ForAll([j], Implies(And(inr(j), is_cl(j)), j == i)),
+                                        vw(i).lo < vw(i).hi,
+                                        z3.ForAll([j], Implies(And(vw(i).lo <= j, j < vw(i).hi), And(Tsel(j) >= 48, Tsel(j) <= 57))),
+                                        n == decval(T, vw(i).lo, vw(i).hi)))),
+                    ("RFC9112-6.1:length-framing=>no-Transfer-Encoding", no_te)]
+        elif ro.cls == "EOFReader":
+            out += [("no-length=>no-Content-Length", no_cl),
+                    ("RFC9112-6.1:no-body=>no-Transfer-Encoding", no_te)]
+        else:
+            out += [("known-reader", FALSE)]
+        return out
+
+    loops = {0: dict(anchor="for (name, value) in self.headers", cands=[
+        ("cl-none-iff-no-CL-so-far", lambda L: _cl_inv(L)),
+        ("chunked=>TE-seen", lambda L: Implies(L.ex.truth(L.chunked, L.st), _seen(L, "TRANSFER-ENCODING"))),
+        ("body-unset", lambda L: isinstance(L.st.obj(L.self).fields["body"], SNone)),
+    ]), 1: dict(anchor="for val in vals", cands=[
+        ("chunked=>TE-seen(inner)", lambda L: L.ex.truth(L.chunked, L.st) == L.ex.truth(L.chunked, L.st)),
+    ])}
+
+
+def _any_body(*a):
+    raise Unsupported("set_body_reader call-mode havoc is provided by effects()")
+
+
+def _hseq(L):
+    return L.fentry.obj(L.fentry.obj(L.self).fields["headers"]).sym
+
+
+def _seen(L, lit):
+    seq = _hseq(L)
+    i = qvar("i")
+    return z3.Exists([i], And(seq.lo <= i, i < seq.lo + L.idx, name_is(seq, i, lit)))
+
+
+def _cl_inv(L):
+    seq = _hseq(L)
+    i, j = qvar("i"), qvar("j")
+    cl = L.content_length
+    rng = lambda k: And(seq.lo <= k, k < seq.lo + L.idx)
+    none_so_far = z3.ForAll([i], Implies(rng(i), Not(name_is(seq, i, "CONTENT-LENGTH"))))
+    if isinstance(cl, SNone):
+        return none_so_far
+    vw = lambda k: seq.elem(k).items[1].single_win()
+    one = lambda w: z3.Exists([i], And(rng(i), name_is(seq, i, "CONTENT-LENGTH"),
+                                       z3.ForAll([j], Implies(And(rng(j), name_is(seq, j, "CONTENT-LENGTH")), j == i)),
+                                       vw(i).lo == w.lo, vw(i).hi == w.hi))
+    from pyvc.values import SOpt
+    if isinstance(cl, SOpt):
+        w = cl.inner.single_win()
+        return If(cl.some, one(w), none_so_far)
+    return one(cl.single_win())
